@@ -329,7 +329,14 @@ def gen_cte(rng, cat):
     # source table, or of an unrelated table (the qualified reference must still mean the real table)
     r0 = rng.random()
     name, icat = 'w', cat
-    if r0 < 0.3:
+    if r0 < 0.08:
+        # joined table of the SAME integration as the CTE's source, named like the CTE (whole-statement pushdown)
+        sib = [t for t in TABLES if t[0] == a[0] and t != a]
+        b = rng.choice(sib)
+        name, icat = b[1], 'names'
+        feats.append('cte-name=joined-table')
+        feats.append('cte-same-integration')
+    elif r0 < 0.3:
         name, icat = b[1], 'names'
         feats.append('cte-name=joined-table')
     elif r0 < 0.42:
